@@ -353,6 +353,9 @@ type cencJob struct {
 	initBytes     []byte
 	segBytes      []byte
 	infos         []mSample
+	rawSamples    [][]byte    // ready-made clear samples (slices serialised by AvcSyntax.tla)
+	specNals      [][]cencNal // their NAL units with the header size the syntax spec gives
+	perFrag       bool        // one fragment per sample
 	tool          bool   // encrypt / decrypt with the built mp4ff-encrypt / mp4ff-decrypt binaries instead of the API
 	sliceHead     []byte // generated cbcs video: head of a real slice copied into every video NAL unit
 }
@@ -428,10 +431,11 @@ func cencDrive(args []string) error {
 			}
 			job.iv = iv
 			job.extras = []string{"none", "nouuid-in-traf", "all"}[ci%3]
+			job.perFrag = ci%2 == 1
 			cencRun(rep, tw7, tw6, &job, key, fmt.Sprintf("case%d", ci))
 			if c07EncBin != "" && ci%3 == int(seedFromEnv())%3 {
 				tj := job
-				tj.tool, tj.infos = true, nil
+				tj.tool, tj.infos, tj.perFrag = true, nil, true
 				cencRun(rep, tw7, tw6, &tj, key, fmt.Sprintf("tool:case%d", ci))
 				toolRuns++
 			}
@@ -473,6 +477,49 @@ func cencDrive(args []string) error {
 			n++
 		}
 		rep.Extra["cbcs_video_generated"] = n
+	}
+	// cbcs on slices serialised by AvcSyntax.tla (every header variation): the clear range must end where the
+	// syntax spec says the slice header ends
+	if sp := argValue(args, "-slices", ""); sp != "" {
+		n, used := 0, 0
+		stride := argInt(args, "-slicestride", 9)
+		_ = readLines(sp, func(line []byte) error {
+			var c struct {
+				Spsnal, Ppsnal, Nal []int
+				Size                int
+			}
+			if err := json.Unmarshal(line, &c); err != nil {
+				return err
+			}
+			n++
+			if n%stride != int(seedFromEnv())%stride {
+				return nil
+			}
+			ini := mp4.CreateEmptyInit()
+			ini.AddEmptyTrack(90000, "video", "und")
+			if err := ini.Moov.Trak.SetAVCDescriptor("avc1", [][]byte{ints2bytes(c.Spsnal)}, [][]byte{ints2bytes(c.Ppsnal)}, true); err != nil {
+				return nil // the SPS of this context is not accepted by the sample entry builder: not this check's business
+			}
+			var ib bytes.Buffer
+			if err := ini.Encode(&ib); err != nil {
+				return nil
+			}
+			mk := func(id, extra int) ([]byte, []cencNal) {
+				nal := append(ints2bytes(c.Nal), tokenBytes(1, id, extra)...)
+				aud := []byte{0x09, 0x10}
+				smp := cat(be32(int64(len(aud))), aud, be32(int64(len(nal))), nal, be32(int64(len(nal))), nal)
+				return smp, []cencNal{{Kind: "n", Len: len(aud)}, {Kind: "v", Len: len(nal), Shl: c.Size}, {Kind: "v", Len: len(nal), Shl: c.Size}}
+			}
+			s1, n1 := mk(1, 200)
+			s2, n2 := mk(2, 37)
+			job := cencJob{codec: "avc", scheme: "cbcs", initBytes: ib.Bytes(), rawSamples: [][]byte{s1, s2}, specNals: [][]cencNal{n1, n2},
+				iv: ivClasses[(n+1)%len(ivClasses)], ivLen: 16, extras: "none"}
+			cencRun(rep, tw7, tw6, &job, key, fmt.Sprintf("cbcs-spec-slice%d", n))
+			rep.Count(fmt.Sprint("cbcs-spec-slice", n), true, nil)
+			used++
+			return nil
+		})
+		rep.Extra["cbcs_spec_slices"] = used
 	}
 	// corpus: clear AVC content with real slice headers, both schemes
 	dir := argValue(args, "-corpus", "/repo/mp4/testdata")
@@ -594,8 +641,14 @@ func cencRun(rep *Report, tw7, tw6 *TraceWriter, job *cencJob, key []byte, name 
 		clearFile = cat(job.initBytes, job.segBytes)
 	} else {
 		var payload []byte
+		if job.rawSamples != nil {
+			job.samples = job.specNals
+		}
 		for i, nl := range job.samples {
 			b := sampleBytes(job.codec, nl, i+1)
+			if job.rawSamples != nil {
+				b = job.rawSamples[i]
+			}
 			if job.sliceHead != nil {
 				at := 0
 				for _, n := range nl {
@@ -609,7 +662,18 @@ func cencRun(rep *Report, tw7, tw6 *TraceWriter, job *cencJob, key []byte, name 
 			payload = append(payload, b...)
 			job.infos = append(job.infos, mSample{Dur: int64(3000 + i), Size: int64(len(b)), Flags: 0x02000000, Cto: int64(i)})
 		}
-		clearFile = cat(job.initBytes, mFragmentX(1, 9000, job.infos, payload, job.extras))
+		if job.perFrag && len(job.infos) > 1 {
+			// one fragment per sample: several fragments encrypted with the same key / iv arguments
+			clearFile = append([]byte{}, job.initBytes...)
+			at, base := 0, int64(9000)
+			for k, inf := range job.infos {
+				clearFile = cat(clearFile, mFragmentX(int64(k+1), base, job.infos[k:k+1], payload[at:at+int(inf.Size)], job.extras))
+				at += int(inf.Size)
+				base += inf.Dur
+			}
+		} else {
+			clearFile = cat(job.initBytes, mFragmentX(1, 9000, job.infos, payload, job.extras))
+		}
 	}
 	clearRead, err := isoReadFragments(clearFile)
 	if err != nil {
@@ -631,7 +695,6 @@ func cencRun(rep *Report, tw7, tw6 *TraceWriter, job *cencJob, key []byte, name 
 		return
 	}
 	origEntry := f.Init.Moov.Trak.Mdia.Minf.Stbl.Stsd.Children[0].Type()
-	clearObs, _ := observeFragment(clearFile, 0, 0)
 	// ---- encrypt
 	ivArg := job.iv
 	if job.ivLen == 8 {
@@ -744,7 +807,9 @@ func cencRun(rep *Report, tw7, tw6 *TraceWriter, job *cencJob, key []byte, name 
 				p += r[0] + r[1]
 			}
 			var nals []cencNal
-			if realSlices {
+			if job.specNals != nil {
+				nals = job.specNals[si]
+			} else if realSlices {
 				nals = nalsOfSample(clear)
 				at := 0
 				for i := range nals {
@@ -837,10 +902,7 @@ func cencRun(rep *Report, tw7, tw6 *TraceWriter, job *cencJob, key []byte, name 
 		kept := true
 		for fi := 0; fi < nfr; fi++ {
 			o2, err := observeFragment(dec, fi, 0)
-			o1 := clearObs
-			if job.corpus {
-				o1, _ = observeFragment(clearFile, fi, 0)
-			}
+			o1, _ := observeFragment(clearFile, fi, 0)
 			if err != nil || o1 == nil || fmt.Sprint(o2.MoofKids) != fmt.Sprint(o1.MoofKids) || fmt.Sprint(o2.TrafKids) != fmt.Sprint(o1.TrafKids) || !o2.ExtraBytesOK {
 				kept = false
 				if o1 != nil && o2 != nil {
